@@ -7,6 +7,7 @@ import (
 	"errors"
 	"fmt"
 	"io/fs"
+	"math"
 	"os"
 	"path"
 	"sort"
@@ -40,7 +41,23 @@ type modelTSM struct {
 	entries map[string]*tsmEntry
 	ops     []tsmOp
 	counter int
+	// failOnce makes the next operation of that kind ("mkdirtemp", "readdir", "readfile:index", "writefile:index",
+	// "writefile:digest") fail with a transient I/O error without doing anything; it is cleared when it has struck
+	failOnce string
 }
+
+var errTransient = errors.New("modelTSM: EIO (transient)")
+
+func (m *modelTSM) strikes(kind string) bool {
+	if m.failOnce == kind {
+		m.failOnce = ""
+		m.rec("failed:"+kind, "", nil)
+		return true
+	}
+	return false
+}
+
+var tcgMaps = map[int]string{0: "1,7\n", 1: "2-6\n", 2: "8-15\n", 3: "\n"}
 
 type dirEnt struct {
 	name  string
@@ -78,6 +95,9 @@ func (m *modelTSM) split(p string) (entry, attr string, ok bool) {
 }
 
 func (m *modelTSM) MkdirTemp(dir, pattern string) (string, error) {
+	if m.strikes("mkdirtemp") {
+		return "", errTransient
+	}
 	m.rec("mkdirtemp", dir+"|"+pattern, nil)
 	if path.Clean(dir) != tsmRoot {
 		return "", fmt.Errorf("modelTSM: mkdir outside %s: %s", tsmRoot, dir)
@@ -95,6 +115,9 @@ func (m *modelTSM) ReadFile(name string) ([]byte, error) {
 	if !ok || ent == nil || ent.isFile {
 		return nil, os.ErrNotExist
 	}
+	if attr == "index" && m.strikes("readfile:index") {
+		return nil, errTransient
+	}
 	switch attr {
 	case "index":
 		if ent.bound {
@@ -107,12 +130,21 @@ func (m *modelTSM) ReadFile(name string) ([]byte, error) {
 	case "digest":
 		return append([]byte{}, ent.register[:]...), nil
 	case "tcg_map":
-		return []byte("1\n"), nil
+		if ent.bound {
+			if tm, ok := tcgMaps[ent.index]; ok {
+				return []byte(tm), nil // what the kernel (and the dependency's fake) serve: RTMR3 maps to no PCR
+			}
+			return []byte("\n"), nil
+		}
+		return []byte{}, nil
 	}
 	return nil, os.ErrNotExist
 }
 
 func (m *modelTSM) ReadDir(dirname string) ([]os.DirEntry, error) {
+	if m.strikes("readdir") {
+		return nil, errTransient
+	}
 	m.rec("readdir", dirname, nil)
 	if path.Clean(dirname) != tsmRoot {
 		return nil, os.ErrNotExist
@@ -130,6 +162,9 @@ func (m *modelTSM) ReadDir(dirname string) ([]os.DirEntry, error) {
 }
 
 func (m *modelTSM) WriteFile(name string, contents []byte) error {
+	if _, attr, _ := m.split(name); (attr == "index" || attr == "digest") && m.strikes("writefile:"+attr) {
+		return errTransient
+	}
 	m.rec("writefile", name, contents)
 	e, attr, ok := m.split(name)
 	ent := m.entries[e]
@@ -207,7 +242,7 @@ func extendChain(reg [48]byte, d []byte) [48]byte {
 
 func TestC17(t *testing.T) {
 	replayDir(t, "C17")
-	idxGen := rapid.OneOf(rapid.IntRange(0, 3), rapid.IntRange(0, 3), rapid.IntRange(0, 1), rapid.IntRange(-1, 5), rapid.SampledFrom([]int{-1 << 63, -1, 4, 5, 1 << 31, 1<<63 - 1}))
+	idxGen := rapid.OneOf(rapid.IntRange(0, 3), rapid.IntRange(0, 3), rapid.IntRange(0, 1), rapid.IntRange(-1, 5), rapid.SampledFrom([]int{math.MinInt, -1, 4, 5, math.MaxInt32, math.MaxInt}))
 	lenGen := rapid.OneOf(rapid.Just(48), rapid.Just(48), rapid.Just(48), rapid.Just(48), rapid.IntRange(0, 64), rapid.SampledFrom([]int{0, 32, 47, 49, 64, 96}))
 	hashGen := rapid.SampledFrom([]crypto.Hash{crypto.SHA384, crypto.SHA384, crypto.SHA384, crypto.SHA384, crypto.SHA384, crypto.SHA384, crypto.SHA384, crypto.SHA384, crypto.SHA256, crypto.SHA512, crypto.SHA1, crypto.Hash(0), crypto.SHA3_384})
 	gen.Prop(t, "histories", gen.N(2500, 250000), func(t *rapid.T) {
@@ -229,7 +264,7 @@ func TestC17(t *testing.T) {
 		if rapid.Bool().Draw(t, "plainfile") {
 			m.entries["README"] = &tsmEntry{isFile: true}
 		}
-		accepted, rejected := map[int]int{}, 0
+		accepted, rejected, hiccups := map[int]int{}, 0, 0
 		var hist []string
 		step := func(desc string, idx int, digest []byte, valid bool, call func() error) {
 			from := len(m.ops)
@@ -328,6 +363,45 @@ func TestC17(t *testing.T) {
 				sum := sha512.Sum384(log)
 				step(fmt.Sprintf("ExtendEventLogClient(%d, hash=%d, %d bytes)", idx, h, len(log)), idx, sum[:], valid, func() error { return rtmr.ExtendEventLogClient(m, idx, h, log) })
 			},
+			// a valid request during which one TSM operation fails transiently: it either fails without having extended
+			// anything or succeeds with exactly one extend, and it leaves nothing behind that makes later requests fail
+			"tsm-hiccup": func(t *rapid.T) {
+				idx := rapid.IntRange(0, 3).Draw(t, "idx")
+				d := s.Bytes(48)
+				kind := rapid.SampledFrom([]string{"mkdirtemp", "readdir", "readfile:index", "writefile:index", "writefile:digest"}).Draw(t, "failing")
+				m.failOnce = kind
+				from := len(m.ops)
+				gen.Eval()
+				v := gen.Call(func() error { return rtmr.ExtendDigestClient(m, idx, d) })
+				struck := m.failOnce == ""
+				m.failOnce = ""
+				desc := fmt.Sprintf("ExtendDigestClient(%d, 48 bytes) while the next %s fails transiently (struck=%v)", idx, kind, struck)
+				hist = append(hist, fmt.Sprintf("%s -> %s", desc, v.Short()))
+				rp := map[string]any{"kind": "tsm-history", "history": hist}
+				if v.Panicked() {
+					gen.Fail(t, gen.Violation{Key: "panic@" + gen.PanicSite(v.Stack), Oracle: "extend returns nil or an error", Detail: desc + ": " + v.Panic, Replay: rp})
+					return
+				}
+				var dw []tsmOp
+				for _, o := range m.mutations(from) {
+					if o.op == "writefile" && strings.HasSuffix(o.path, "/digest") {
+						dw = append(dw, o)
+					}
+				}
+				switch {
+				case !struck && !v.Accepted():
+					gen.Fail(t, gen.Violation{Key: "rejects-valid-request", Oracle: "a valid request succeeds", Detail: desc + ": " + v.String(), Replay: rp})
+				case v.Accepted() && (len(dw) != 1 || !bytes.Equal(dw[0].data, d)):
+					gen.Fail(t, gen.Violation{Key: "digest-write-count", Oracle: "a valid request results in exactly one extend", Detail: fmt.Sprintf("%s: %d digest writes", desc, len(dw)), Replay: rp})
+				case !v.Accepted() && len(dw) != 0:
+					gen.Fail(t, gen.Violation{Key: "failed-request-extends", Oracle: "each register equals the SHA-384 extend chain of the accepted digests for its index", Detail: fmt.Sprintf("%s: returned an error after %d digest writes", desc, len(dw)), Replay: rp})
+				case v.Accepted():
+					model[idx] = extendChain(model[idx], d)
+					accepted[idx]++
+				default:
+					hiccups++
+				}
+			},
 			"": func(t *rapid.T) {
 				seen := map[int]string{}
 				for n, e := range m.entries {
@@ -353,6 +427,9 @@ func TestC17(t *testing.T) {
 			}
 		}
 		gen.Class(fmt.Sprintf("history:twoAccepted=%v,rejected=%v,prebound=%d", two, rejected > 0, len(pre)))
+		if hiccups > 0 {
+			gen.Class("history:with-a-request-that-failed-on-a-transient-TSM-error")
+		}
 		if two && rejected > 0 {
 			gen.NonTrivial(strings.Join(hist, ";"))
 		}
